@@ -60,7 +60,7 @@ RULE = ("scenarios of one swap on the real SwapService (4 roles x btc/lbtc): dir
 
 def run(ctx):
     build_findings(ctx)
-    n = 150 if ctx.quick else 1800
+    n = 110 if ctx.quick else 1500
     d = ctx.harness("fsm", args=["-n", n] + ARGS)
     if d is None:
         return
